@@ -1857,6 +1857,43 @@ example : SoundState ([] : List (Cont ℚ)) (World.empty : World ℚ) := by
   · intro h; simp [World.empty, Tape.WF]
   · intro c h; cases h
 
+/-! ### programs compose -/
+
+/-- **Running one program after another is running their concatenation** — with the container
+    code and element by element alike: the second program starts in the state the first one
+    ended in, a panic of the first ends the run.  (So every statement about programs holds for
+    any split of a longer history into pieces.) -/
+theorem program_append (p q : List (CInstr R)) :
+    (∀ (cs : List (Cont R)) (w : World R),
+        runModel (p ++ q) cs w
+          = match runModel p cs w with
+            | .ok r => runModel q r.1 r.2
+            | .panic k => .panic k)
+      ∧ (∀ (ss : List (SCont R)) (w : World R),
+        runSpec (p ++ q) ss w
+          = match runSpec p ss w with
+            | .ok r => runSpec q r.1 r.2
+            | .panic k => .panic k) := by
+  constructor
+  · induction p with
+    | nil => intro cs w; rfl
+    | cons i rest ih =>
+      intro cs w
+      simp only [List.cons_append, runModel]
+      cases i.stepModel cs w with
+      | panic k => rfl
+      | ok r => obtain ⟨cs1, w1⟩ := r; exact ih cs1 w1
+  · induction p with
+    | nil => intro ss w; rfl
+    | cons i rest ih =>
+      intro ss w
+      simp only [List.cons_append, runSpec]
+      cases i.stepSpec ss w with
+      | panic k => rfl
+      | ok r => obtain ⟨ss1, w1⟩ := r; exact ih ss1 w1
+
+example : ([CInstr.clone 0] ++ [CInstr.clone 1] : List (CInstr ℚ)) = [CInstr.clone 0, CInstr.clone 1] := rfl
+
 /-! ### the pinned commit: what the repairs change (kernel evaluation on concrete witnesses) -/
 
 section AsWritten
